@@ -61,6 +61,22 @@ fn scenario(name: &str) -> Option<String> {
                 if get(&evs[0], "level") != Some("\"info\"") || get(&evs[0], "msg") != Some("\"m\"") || get(&evs[0], "z") != Some("1") { return fail(format!("expected=values kept actual={:?}", evs[0])); }
                 None
             }
+            "collision" => {
+                // a tag passed to the call and a tag of the thread share a name (and the thread has one name twice): the
+                // event carries all of them, none is dropped or merged
+                add_thread_local_log_tag("user", "alice");
+                add_thread_local_log_tag("shard", 3u8);
+                add_thread_local_log_tag("shard", 4u8);
+                add_thread_local_log_tag("path", "/upload");
+                servlin::log::info("m", (tag("user", "bob"), tag("item", 6u8), tag("path", "/var/f1"))).ok()?;
+                let evs = drain(&rx);
+                if evs.len() != 1 { return fail(format!("expected=1 event actual={}", evs.len())); }
+                let want = ["level", "msg", "path", "path", "user", "item", "user", "shard", "shard"];
+                if keys(&evs[0]) != want { return fail(format!("expected=keys {want:?} (every tag given and every tag of the thread) actual={:?}", keys(&evs[0]))); }
+                let vals: Vec<&str> = evs[0].iter().filter(|x| x.0 == "user" || x.0 == "path" || x.0 == "shard").map(|x| x.1.as_str()).collect();
+                if vals != ["\"/var/f1\"", "\"/upload\"", "\"bob\"", "\"alice\"", "3", "4"] { return fail(format!("expected=the call's value before the thread's for a shared name actual={vals:?}")); }
+                None
+            }
             "many" => {
                 // many tags: those without a fixed place keep the order given (the error's own tags, then the rest), whatever their number
                 for k in 0..5u8 { add_thread_local_log_tag(["t0", "t1", "t2", "t3", "t4"][k as usize], k); }
@@ -170,7 +186,7 @@ fn stopped() -> Option<String> {
 fn main() {
     std::panic::set_hook(Box::new(|_| {}));
     let args: Vec<String> = std::env::args().collect();
-    let all = ["order", "many", "levels", "isolation", "response-ok", "response-err", "wrapper"];
+    let all = ["order", "collision", "many", "levels", "isolation", "response-ok", "response-err", "wrapper"];
     let run = |n: &str| -> Option<String> { if n == "stopped" { stopped() } else { match std::panic::catch_unwind(|| scenario(n)) { Ok(v) => v, Err(_) => Some(format!("log scenario={n} expected=no-panic actual=panic")) } } };
     if args.len() >= 3 && args[1] == "replay" {
         let w = args[2..].join(" ");
